@@ -346,6 +346,7 @@ func genCase(r *vh.Rng, idx int) *Case {
 	}
 	shuffle(r, syms)
 	c.Secs, c.Syms = secs, syms
+	c.ks = ks
 	for _, k := range ks {
 		c.Queries = append(c.Queries, Query{Name: k.name})
 	}
@@ -496,4 +497,96 @@ func hostile(r *vh.Rng, c *Case, ks []*kern, ti, ri uint16, textAddr, roAddr, te
 			c.Queries = []Query{{Name: ""}, {Name: k.name}}
 		}
 	}
+}
+
+// variant returns an object with the same sections, symbols, kernel names and
+// therefore the same file length as a, but with different kernel contents:
+// new header fields / code bytes / descriptors at the same places.
+func variant(r *vh.Rng, a *Case) *Case {
+	b := *a
+	b.Secs = append([]SecSpec(nil), a.Secs...)
+	b.Syms = append([]SymSpec(nil), a.Syms...)
+	b.Queries = nil
+	b.Tag = "variant"
+	var text, ro []byte
+	ti, ri := -1, -1
+	for i, s := range b.Secs {
+		if s.Name == ".text" && ti < 0 {
+			ti, text = i, unhex(s.Data)
+		}
+		if s.Name == ".rodata" && ri < 0 {
+			ri, ro = i, unhex(s.Data)
+		}
+	}
+	for _, k := range a.ks {
+		n := len(k.blob)
+		var nb []byte
+		switch k.kind {
+		case "v3":
+			nb = append(genHeader(r), randBytes(r, n-256)...)
+		case "v5":
+			nb = randBytes(r, n)
+			if n >= 256 && r.Intn(2) == 0 {
+				nb = genMimic(r, n)
+			}
+		default:
+			nb = genNearMiss(r, n)
+			if n >= 24 && n < 256 && r.Intn(2) == 0 {
+				nb = genMimic(r, n)
+			}
+		}
+		copy(text[k.off:], nb)
+		if k.kd != nil {
+			copy(ro[k.kdo:], genKd(r))
+		}
+	}
+	b.Secs[ti].Data = hex.EncodeToString(text)
+	if ri >= 0 {
+		b.Secs[ri].Data = hex.EncodeToString(ro)
+	}
+	return &b
+}
+
+// genHistory: a sequence of loads performed by ONE process.  Images 0..2 are
+// an object and two variants of it (same length, same kernel names, different
+// contents) that take turns in one reused buffer; an unrelated object is
+// interleaved.  The sequence always contains A:k, B:k, A:k (overwrite in
+// place and load again), A:k twice in a row (repeated load) and loads of
+// different kernels in between.
+func genHistory(r *vh.Rng) *Case {
+	a := genCase(r.Fork(), 0)
+	h := &Case{Src: "hist", Tag: "history", Valid: true}
+	h.Images = []*Case{a, variant(r, a), variant(r, a), genCase(r.Fork(), 1)}
+	pick := func(img int) string {
+		ks := h.Images[img%3].ks
+		if img == 3 {
+			ks = h.Images[3].ks
+		}
+		return ks[r.Intn(len(ks))].name
+	}
+	k := pick(0)
+	add := func(img int, name string, fresh bool) {
+		h.Steps = append(h.Steps, Step{Img: img, Name: name, Fresh: fresh})
+	}
+	add(0, k, false)
+	add(1, k, false)
+	add(0, k, false)
+	add(0, k, false)
+	add(2, k, r.Intn(3) == 0)
+	for n := 3 + r.Intn(10); n > 0; n-- {
+		img := r.Pick(3, 3, 2, 2)
+		name := pick(img)
+		if r.Intn(3) == 0 {
+			name = k
+			if img == 3 {
+				img = 1
+			}
+		}
+		add(img, name, r.Intn(5) == 0)
+	}
+	for _, im := range h.Images {
+		im.Src = "gen"
+		im.Queries = nil
+	}
+	return h
 }
